@@ -13,6 +13,7 @@ mod eval;
 mod named;
 mod par;
 mod rng;
+mod sample;
 mod stop;
 mod strategy;
 mod tree;
@@ -50,6 +51,8 @@ fn main() {
         ["replay", "lattice"] => lattice::replay(&args),
         ["child", "lattice"] => lattice::child(&args),
         ["gen", "xform"] => xform::gen(&args),
+        ["replay", "sampler"] => sample::replay_sampler(&args),
+        ["record", "sample"] => sample::record(&args),
         ["replay", "xform"] => xform::replay(&args),
         other => {
             eprintln!("unknown command {other:?}");
